@@ -124,3 +124,6 @@ SPEC['rule'] += (' Added after the seeded-change rounds: ' +
     "Attribution: the address recorded for a ClientID must stay the one of the carrier that delivered the stream's packets - streams opened one after the other on one session while carriers with different addresses come and go (model Attribution.lean, harness c18_attr_test.go); unspecified / malformed / port-only addresses through the sanitiser; more ids than the ring's capacity.")
 
 SPEC['thorough_passes'] = 2  # the thorough tier runs the whole harness under this many consecutive seeds
+
+SPEC['rule'] += (' ' +
+    'Added after round four: sessions established by smux keep-alive frames before their first stream, with another carrier of the same ClientID arriving in between.')
